@@ -188,7 +188,50 @@ def check_daggers(ctx):
     ctx.ob("R16.3", ZX + ".Had.dagger", isinstance(r, ast.Return) and ast.unparse(r.value) == "self", found=ast.unparse(r), required="H is self-adjoint", mod=ZX, node=fn, sig="dagger-H")
 
 
+def check_generators(ctx):
+    """R16.5: the generators the table is written with are built the way the reference algebra reads them: Z(m, n) has m inputs, n outputs and phase 0 unless given"""
+    m = ctx.model
+    sp = m.func(ZX + ".Spider.__init__")
+    ctx.analysed(ZX + ".Spider.__init__", ZX + ".Spider.phase", ZX + ".Had.__init__", ZX + ".Scalar.__init__")
+    a = [x.arg for x in sp.args.args]
+    ctx.need(len(a) >= 4, "Spider.__init__ takes fewer than three arguments")
+    N = {a[1]: "n_legs_in", a[2]: "n_legs_out", a[3]: "phase"}
+    typ = shape.values_of(sp.body, ["dom", "cod"])
+    shape.match(ctx, "R16.5", ZX + ".Spider.__init__:type", typ, "(PRO(n_legs_in), PRO(n_legs_out))", N, mod=ZX, node=sp, sig="spider-type", required="inputs first: dom = PRO(n_legs_in), cod = PRO(n_legs_out)")
+    sup = next((c for c in ast.walk(sp) if isinstance(c, ast.Call) and ast.unparse(c.func) == "super().__init__"), None)
+    shape.match(ctx, "R16.5", ZX + ".Spider.__init__:data", sup, "super().__init__(name, dom, cod, data=phase)", N, mod=ZX, node=sp, sig="spider-data", required="the phase is the data of the box")
+    ph = m.func(ZX + ".Spider.phase")
+    shape.match(ctx, "R16.5", ZX + ".Spider.phase", ret_expr(ph.body), "self.data", {}, mod=ZX, node=ph, sig="spider-phase")
+    for cname in ("Z", "X", "Y"):
+        fn = m.func("%s.%s.__init__" % (ZX, cname))
+        ctx.analysed("%s.%s.__init__" % (ZX, cname))
+        a = [x.arg for x in fn.args.args]
+        d = dict(zip(a[len(a) - len(fn.args.defaults):], fn.args.defaults))
+        ok = len(a) == 4 and isinstance(d.get(a[3]), ast.Constant) and d[a[3]].value == 0 and type(d[a[3]].value) in (int, float) and a[1] not in d and a[2] not in d
+        ctx.ob("R16.5", "%s.%s.__init__:signature" % (ZX, cname), ok, found=ast.unparse(fn.args), required="(n_legs_in, n_legs_out, phase=0): a spider written without phase has phase 0", mod=ZX, node=fn, sig="signature-" + cname)
+        if len(a) == 4:
+            sup = next((c for c in ast.walk(fn) if isinstance(c, ast.Call) and ast.unparse(c.func) == "super().__init__"), None)
+            shape.match(ctx, "R16.5", "%s.%s.__init__:super" % (ZX, cname), sup, ["super().__init__(n_legs_in, n_legs_out, phase, name='%s')" % cname, "super().__init__(n_legs_in, n_legs_out, phase=phase, name='%s')" % cname],
+                        {a[1]: "n_legs_in", a[2]: "n_legs_out", a[3]: "phase"}, mod=ZX, node=fn, sig="super-" + cname, required="legs and phase passed on in this order, named %s" % cname)
+    hd = m.func(ZX + ".Had.__init__")
+    sup = next((c for c in ast.walk(hd) if isinstance(c, ast.Call) and ast.unparse(c.func) == "super().__init__"), None)
+    shape.match(ctx, "R16.5", ZX + ".Had.__init__", sup, "super().__init__('H', PRO(1), PRO(1))", {}, mod=ZX, node=hd, sig="had", required="one wire in, one wire out")
+    sc = m.func(ZX + ".Scalar.__init__")
+    sup = next((c for c in ast.walk(sc) if isinstance(c, ast.Call) and ast.unparse(c.func) == "super().__init__"), None)
+    shape.match(ctx, "R16.5", ZX + ".Scalar.__init__", sup, "super().__init__('scalar', PRO(0), PRO(0), data=data)", {sc.args.args[1].arg: "data"}, mod=ZX, node=sc, sig="scalar", required="no wires, the number as data")
+
+
+def ret_expr(body):
+    for st in body:
+        if isinstance(st, ast.Return):
+            return st.value
+    return None
+
+
 def check(ctx):
+    ctx.rule("R16.5", "generators: Z / X / Y(m, n, phase=0) have m input and n output wires and the given phase as data; H is 1 -> 1; a scalar has no wires")
+    check_generators(ctx)
+    ctx.floor("R16.5", 11)
     ctx.rule("R16.1", "every gate2zx entry, as a closed ZX term in the reference algebra, is proportional to the reference matrix of the gate it is keyed by, with the same arity")
     ctx.rule("R16.2", "circuit2zx is the rigid functor qubit -> one wire, gate -> gate2zx(gate), into zx.Diagram")
     ctx.rule("R16.3", "dagger of ZX generators: spiders swap legs and negate the phase, scalars conjugate, H is fixed")
